@@ -19,6 +19,7 @@ from pathlib import Path
 sys.path.insert(0, str(Path(__file__).resolve().parent))
 import lib  # noqa
 import c15_gen as G  # noqa
+import c15_hist as H  # noqa
 
 PID = 'C15'
 TOL64 = Fr(1, 2 ** 36)     # binary64 path (divisions, sqrt, 3x3 inverse; cond <= ~1e3)
@@ -427,6 +428,154 @@ def run_coq_batches(ctx, batches, meshes, vols):
     return fm, fc, errors, times
 
 
+# ------------------------------------------------------- same-object stream
+def run_sequences(ctx, meshes, seqs, tag):
+    """seqs: list of {'mesh', 'mode', 'steps'}; runs each on ONE object plus a
+    fresh-object reference per distinct option set; returns per sequence the
+    list of (step outputs, reference outputs)"""
+    jobs, refs = [], {}
+    for sq in seqs:
+        sq['job'] = len(jobs)
+        jobs.append({'id': len(jobs), 'mesh': sq['mesh'], 'kind': 'sequence',
+                     'steps': H.json_steps(sq['steps'])})
+        for st in sq['steps']:
+            key = (sq['mesh'], H.kw_tuple(st['kw']))
+            if key not in refs:
+                refs[key] = len(jobs)
+                jobs.append({'id': len(jobs), 'mesh': sq['mesh'], 'kind': 'matrices', 'kw': st['kw']})
+    res = run_impl(ctx, meshes, jobs, tag=tag)
+    out = []
+    for sq in seqs:
+        r = res[sq['job']]
+        steps_out = r.get('steps') or [{'error': r.get('error', 'no output')}] * len(sq['steps'])
+        out.append([(so, res[refs[(sq['mesh'], H.kw_tuple(st['kw']))]])
+                    for st, so in zip(sq['steps'], steps_out)])
+    return out
+
+
+def eval_sequence(meshes, sq, outs, wells):
+    """-> list of (step index, check, detail)"""
+    mesh = meshes[sq['mesh']]
+    bad = []
+    for k, (st, (so, ref)) in enumerate(zip(sq['steps'], outs)):
+        kw = st['kw']
+        for check, detail in H.check_step(st, so, ref, sq['P'], wells[(sq['mesh'], sq['mode'], kw['n_hop'])],
+                                          rows_from_coo, fr_hex):
+            bad.append((k, check, detail))
+    return bad
+
+
+def history_stream(ctx, meshes, cost_cache, corpus_seqs=()):
+    rng = ctx.rng
+    quick = ctx.tier == 'quick'
+    n_seq, length = (12, 7) if quick else (80, 10)
+    wells, cands = {}, []
+    for mid, mesh in meshes.items():
+        if mesh.get('descr', {}).get('malformed') or 'min_degree' not in mesh:
+            continue
+        for mode in ('nodal', 'elemental'):
+            n = len(mesh['node_ids']) if mode == 'nodal' else len(mesh['conn'])
+            if mesh['min_degree'][mode] < 1 or not (5 <= n <= (20 if quick else 40)):
+                continue
+            for hop in (1, 2, 3):
+                inc, nb, P = G.neighbourhoods(mesh, mode, hop)
+                wells[(mid, mode, hop)] = well_conditioned(nb, P)
+            if wells[(mid, mode, 1)] or wells[(mid, mode, 2)]:
+                cands.append((mid, mode))
+    rng.shuffle(cands)
+    seqs = []
+    for mid, mode, steps in corpus_seqs:          # corpus first
+        for hop in (1, 2, 3):
+            inc, nb, P = G.neighbourhoods(meshes[mid], mode, hop)
+            wells[(mid, mode, hop)] = well_conditioned(nb, P)
+        inc, nb, P = G.neighbourhoods(meshes[mid], mode, 1)
+        seqs.append({'mesh': mid, 'mode': mode, 'steps': steps, 'P': P})
+    for mid, mode in cands[:n_seq]:
+        mesh = meshes[mid]
+        inc, nb, P = G.neighbourhoods(mesh, mode, 1)
+        diam2 = max(sum((a - b) ** 2 for a, b in zip(p, mesh['xyz'][0])) for p in mesh['xyz'])
+        scales = {'exp': 1.0 / max(diam2, 1) ** 0.5, 'gauss': 2.0 / max(diam2, 1)}
+        steps = H.make_sequence(rng, mesh, mode, length,
+                                {h: wells[(mid, mode, h)] for h in (1, 2, 3)}, scales)
+        H.attach_data(rng, steps, P)
+        seqs.append({'mesh': mid, 'mode': mode, 'steps': steps, 'P': P})
+    if not seqs:
+        return [], [], []
+    outs = run_sequences(ctx, meshes, seqs, 'hist')
+    failures, items, hcases = [], [], []
+    n_steps = n_same_names = 0
+    for sq, o in zip(seqs, outs):
+        mesh = meshes[sq['mesh']]
+        names_seen = {}
+        for k, st in enumerate(sq['steps']):
+            kw = st['kw']
+            n_steps += 1
+            key = (st['kind'], kw['mode'], kw['n_hop'], kw.get('kernel'), tuple(sorted(kw)))
+            if key in names_seen and names_seen[key] != H.kw_tuple(kw):
+                n_same_names += 1
+            names_seen.setdefault(key, H.kw_tuple(kw))
+            ctx.count('history-step:' + st['kind'])
+            ctx.case(['history', mesh['descr'], mesh['node_ids'][:4], k,
+                      [H.kw_tuple(x['kw']) for x in sq['steps'][:k + 1]]], nontrivial=k > 0)
+        bad = eval_sequence(meshes, sq, o, wells)
+        for k, check, detail in bad[:1]:       # the first failing step of a sequence
+            c = {'mesh': sq['mesh'], 'kw': sq['steps'][k]['kw'], 'n': len(sq['P']),
+                 'sequence': sq, 'failing_step': k, 'seq_id': id(sq)}
+            failures.append([len(sq['P']) * 100 + k, 'impl-violation', mesh, c,
+                             {'convenience-history': 'convenience output = matrices of a fresh object applied by hand, at every step',
+                              'affine-exact-history': 'gradient of g.x+c is g at every vertex, at every step',
+                              'matrices-history': 'explicit matrices do not depend on earlier calls',
+                              'raised-history': 'the call succeeds as on a fresh object'}[check],
+                             dict(detail, step=k),
+                             {'affine-exact-history': 'C15_convenience_affine_exact',
+                              'matrices-history': 'C15_grad_const_zero (matrices are a function of mesh and options)'
+                              }.get(check, 'C15_convenience_equals_matrices') + ' / same-object stream', check])
+        # correspondence with the Coq model of the convenience function (kernel None, cheap)
+        for k, (st, (so, ref)) in enumerate(zip(sq['steps'], o)):
+            kw = st['kw']
+            if st['kind'] != 'conv' or kw.get('kernel') or 'error' in so:
+                continue
+            if kw['moment_matrix'] and not wells[(sq['mesh'], sq['mode'], kw['n_hop'])]:
+                continue
+            if kw['consider_volume'] and mesh.get('exact_vol') is None:
+                continue
+            est = cost_estimate(mesh, kw, cost_cache)
+            if est > 2.0:
+                continue
+            hc = {'id': 100000 + len(hcases), 'mesh': sq['mesh'], 'kw': kw, 'data': st['data'],
+                  'n': len(sq['P']), 'est': 4 * est, 'sequence': sq, 'failing_step': k, 'history': True,
+                  'seq_id': id(sq)}
+            hcases.append(hc)
+            items.append((hc['id'], hc, None, so))
+    ctx.notes['same_object_stream'] = {
+        'sequences': len(seqs), 'steps': n_steps,
+        'steps_repeating_option_names_with_other_values': n_same_names,
+        'coq_convenience_cases': len(items), 'failing_sequences': len(failures)}
+    # shrink: the failing step alone, then (earlier step, failing step) pairs
+    failures.sort(key=lambda f: f[0])
+    todo = failures[:3]
+    if todo:
+        cand = []
+        for f in todo:
+            sq, k = f[3]['sequence'], f[3]['failing_step']
+            for pre in [[]] + [[j] for j in range(k - 1, -1, -1)]:
+                cand.append((f, {'mesh': sq['mesh'], 'mode': sq['mode'], 'P': sq['P'],
+                                 'steps': [sq['steps'][j] for j in pre] + [sq['steps'][k]]}))
+        outs2 = run_sequences(ctx, meshes, [c for _, c in cand], 'hist_shrink')
+        done = set()
+        for (f, sq2), o2 in zip(cand, outs2):
+            if id(f) in done:
+                continue
+            b2 = [b for b in eval_sequence(meshes, sq2, o2, wells) if b[0] == len(sq2['steps']) - 1]
+            if b2:
+                done.add(id(f))
+                f[3] = dict(f[3], sequence=sq2, failing_step=len(sq2['steps']) - 1,
+                            shrunk_from=len(f[3]['sequence']['steps']))
+                f[5] = dict(b2[0][2], step=len(sq2['steps']) - 1)
+                f[0] = len(sq2['P']) * 100 + len(sq2['steps']) - 10000     # shrunk ones are reported first
+    return [tuple(f) for f in failures], items, hcases
+
+
 # -------------------------------------------------------------------- main
 def prepare_cases(ctx, meshes, cases):
     """run the implementation; attach outputs, neighbourhood data, flags"""
@@ -523,8 +672,17 @@ def describe(mesh, c):
 
 
 def replay_case(mesh, c, vols=None):
-    return {'mesh': {k: mesh[k] for k in ('etype', 'node_ids', 'xyz', 'elem_ids', 'conn')},
-            'kw': c['kw'], 'data': c.get('data'), 'affine': c.get('affine')}
+    out = {'mesh': {k: mesh[k] for k in ('etype', 'node_ids', 'xyz', 'elem_ids', 'conn')},
+           'kw': c['kw'], 'data': c.get('data'), 'affine': c.get('affine')}
+    if c.get('sequence'):
+        k = c['failing_step']
+        out['data'] = None
+        out['same_object_sequence'] = H.json_steps(c['sequence']['steps'][:k + 1])
+        out['failing_step'] = k
+        out['mode'] = c['sequence']['mode']
+        if c.get('shrunk_from'):
+            out['shrunk_from_steps'] = c['shrunk_from']
+    return out
 
 
 def signature(mesh, c, check):
@@ -538,7 +696,9 @@ def main(ctx):
                 'none/effective/mean(nodal)/element x moment on/off (round-robin over all 30) with '
                 'kernel=None for the correspondence, plus exp/gauss kernels for the oracle; a case is '
                 'non-trivial when the implementation returned matrices with at least one off-diagonal '
-                'entry; distinct = distinct (mesh, options)')
+                'entry; distinct = distinct (mesh, options); same-object stream: random walks over option '
+                'values on ONE FEMData (7 calls quick / 10 thorough per sequence), each step compared with '
+                'a fresh object and with the model; distinct = distinct call prefix')
     ctx.trusted += [
         'hand model coq/C15/Model.v tied to femio by the correspondence (explicit matrices and '
         'convenience functions, kernel=None) evaluated in Coq on rationals; floats enter as exact '
@@ -566,7 +726,7 @@ def main(ctx):
         ctx.notes['build_log_tail'] = log[-1500:]
 
     # 2. cases: corpus first, then generated
-    meshes, cases = {}, []
+    meshes, cases, corpus_seqs = {}, [], []
     corpus_dir = lib.VERIF / 'corpus' / PID
     n_corpus = 0
     if corpus_dir.exists():
@@ -576,6 +736,17 @@ def main(ctx):
             m = dict(rp['mesh'])
             m['descr'] = {'corpus': f.name, 'etype': m['etype']}
             meshes[mid] = m
+            if rp.get('same_object_sequence'):
+                steps = []
+                for st in rp['same_object_sequence']:
+                    st = dict(st)
+                    if st.get('data') is not None:
+                        st['data'] = [[Fr(x) for x in r] for r in st['data']]
+                    steps.append(st)
+                m['exact_vol'] = exact_volumes(m)
+                corpus_seqs.append((mid, rp.get('mode') or steps[-1]['kw']['mode'], steps))
+                n_corpus += 1
+                continue
             c = {'mesh': mid, 'kw': rp['kw'], 'kernel': rp['kw'].get('kernel'), 'with_conv': bool(rp.get('data'))}
             if rp.get('data'):
                 c['data'] = rp['data']
@@ -680,14 +851,19 @@ def main(ctx):
         if kw.get('kernel') is None:
             rows3 = [rows_from_coo(A, c['n']) for A in mats]
             batch_items.append((c['id'], c, rows3, rc))
-    ctx.notes['search_evaluations'] = n_oracle
+    # 3b. same-object stream (several calls on ONE FEMData)
+    hist_failures, hist_items, hist_cases = history_stream(ctx, meshes, {}, corpus_seqs)
+    failures += hist_failures
+    batch_items += hist_items
+    ctx.log(f"same-object stream: {ctx.notes.get('same_object_stream')}")
+    ctx.notes['search_evaluations'] = n_oracle + ctx.notes.get('same_object_stream', {}).get('steps', 0)
     ctx.notes['skipped_moment_not_well_conditioned'] = skipped_sing
 
     # 4. correspondence inside Coq
     model_ok, _, _ = lib.coq_make(['C15/Exec.vo'])      # Model.vo + the executable comparison
     corr_fail = 0
-    n_corr = len(batch_items) + sum(1 for b in batch_items if b[3] is not None)
-    by_id0 = {c['id']: c for c in cases}
+    n_corr = sum(1 for b in batch_items if b[2] is not None) + sum(1 for b in batch_items if b[3] is not None)
+    by_id0 = {c['id']: c for c in cases + hist_cases}
     if model_ok and batch_items:
         # balance batches by estimated cost (longest first, least-loaded batch)
         batch_items.sort(key=lambda b: -b[1].get('est', 1.0))
@@ -709,7 +885,7 @@ def main(ctx):
              for k, t in times.items()], indent=0))
         if errors:
             ctx.notes['coq_eval_errors'] = errors[:3]
-        by_id = {c['id']: c for c in cases}
+        by_id = by_id0
         for cid, detail in fm.items():
             c = by_id[cid]
             corr_fail += 1
@@ -723,20 +899,23 @@ def main(ctx):
             failures.append((c['n'], 'correspondence', meshes[c['mesh']], c,
                              'convenience function output = model (all vertices, within tolerance)',
                              {'failing vertices or model result': detail},
-                             'correspondence C15 (Model.conv_agree)', 'conv'))
+                             'correspondence C15 (Model.conv_agree)' +
+                             (' / same-object stream' if c.get('history') else ''),
+                             'conv-history' if c.get('history') else 'conv'))
     elif not model_ok:
         ctx.notes['model_build_failed'] = True
     ctx.corr = {'cases': n_corr if model_ok else 0, 'disagreements': corr_fail,
-                'matrices_cases': len(batch_items),
+                'matrices_cases': sum(1 for b in batch_items if b[2] is not None),
                 'convenience_cases': sum(1 for b in batch_items if b[3] is not None)}
     ctx.log(f'correspondence: {n_corr} cases, {corr_fail} disagreements; oracle cases {n_oracle}')
 
     # 5. violations (smallest failing input per signature first)
     failures.sort(key=lambda f: f[0])
     impl_bad_cases = {id(f[3]) for f in failures if f[1] == 'impl-violation'}
+    impl_bad_seqs = {f[3]['seq_id'] for f in failures if f[1] == 'impl-violation' and 'seq_id' in f[3]}
     per_check, suppressed = {}, {}
     for size, kind, mesh, c, expected, observed, theorem, check in failures:
-        found = kind == 'impl-violation' or id(c) in impl_bad_cases
+        found = kind == 'impl-violation' or id(c) in impl_bad_cases or c.get('seq_id') in impl_bad_seqs
         # at most 3 replay files per (kind, check): the smallest failing inputs
         k = f'{kind}/{check}'
         per_check[k] = per_check.get(k, 0) + 1
@@ -746,7 +925,9 @@ def main(ctx):
         ctx.violation(kind, replay_case(mesh, c), expected, observed, theorem,
                       found_input=found, signature=signature(mesh, c, check),
                       what=f"{check} fails for {kw_key(c['kw'])} on a {mesh['etype']} mesh "
-                           f"({len(mesh['node_ids'])} nodes)")
+                           f"({len(mesh['node_ids'])} nodes)" +
+                           (f" as call {c['failing_step'] + 1} on the same object"
+                            if c.get('sequence') else ''))
     if suppressed:
         ctx.notes['further_failing_cases_not_written_as_replay_files'] = suppressed
     ctx.notes['failing_cases_by_kind'] = per_check
@@ -777,6 +958,27 @@ def replay(path):
         c['data'] = case['data']
     if case.get('affine'):
         c['affine'] = [tuple(x) for x in case['affine']]
+    if case.get('same_object_sequence'):
+        steps = []
+        for st in case['same_object_sequence']:
+            st = dict(st)
+            if st.get('data') is not None:
+                st['data'] = [[Fr(x) for x in r] for r in st['data']]
+            steps.append(st)
+        mode = case.get('mode') or steps[-1]['kw']['mode']
+        wells = {}
+        for hop in (1, 2, 3):
+            inc, nb, P = G.neighbourhoods(mesh, mode, hop)
+            wells[('r0', mode, hop)] = well_conditioned(nb, P)
+        inc, nb, P = G.neighbourhoods(mesh, mode, 1)
+        sq = {'mesh': 'r0', 'mode': mode, 'steps': steps, 'P': P}
+        outs = run_sequences(ctx, meshes, [sq], 'replay_hist')[0]
+        bad = eval_sequence(meshes, sq, outs, wells)
+        for k, st in enumerate(steps):
+            print(f'step {k}: {st["kind"]} {kw_key(st["kw"])} alpha={st["kw"].get("alpha")}:',
+                  [b[1:] for b in bad if b[0] == k] or 'agrees with a fresh object')
+        print('property', 'VIOLATED' if bad else 'holds', 'on this call sequence')
+        return 1 if bad else 0
     res, vols = prepare_cases(ctx, meshes, [c])
     kw = c['kw']
     inc, nb, P = G.neighbourhoods(mesh, kw['mode'], kw['n_hop'])
